@@ -68,8 +68,9 @@ class TLCResult:
     def printed(self, tag):
         """Values printed by PrintT(<<tag, v>>) in the spec."""
         res = []
-        for m in re.finditer(r'<<"%s", (.*)>>' % re.escape(tag), self.text):
-            res.append(m.group(1))
+        # TLC pretty-prints long tuples over several lines ("<< \"TAG\",\n   17,\n   \"...\" >>")
+        for m in re.finditer(r'<<\s*"%s",\s*(.*?)\s*>>(?=\s*(?:\n|$))' % re.escape(tag), self.text, re.S):
+            res.append(re.sub(r"\s*\n\s*", " ", m.group(1)))
         return res
 
 
